@@ -85,8 +85,85 @@ func poolAccounts(n *simnode.Node) []types.Address {
 	return accs
 }
 
+// runC01Fork: the equation on every node across a partition, a reorganisation of up to 30
+// momentums (the adopted chain must satisfy it, whatever was pooled or abandoned) and restarts.
+func runC01Fork(r *simrt.Run) {
+	t := r.T
+	mode := nomsim.SporkMode(t.Choose(3))
+	w := nomsim.NewWorld(r, nomsim.MockGenesis(mode))
+	w.EnforceReceiverRule(0)
+	wl := nomsim.NewWorkload(w, mode)
+	wl.MaxOps = 2 + t.Choose(5)
+	f := nomsim.NewFork(w, wl, t.Choose(6), t.Bool(), t.Bool())
+	check := func(stage string) {
+		for _, n := range w.Nodes {
+			if !n.Up {
+				continue
+			}
+			if _, err := oracle.Conservation(n.Chain.GetFrontierMomentumStore(), n.Mgr.Frontier()); err != nil {
+				r.Fail("conservation-frontier", clauseOf(err), "%s on node %s at height %d: %v", stage, n.Name, n.Height(), err)
+			}
+			if _, err := oracle.ConservationFn(poolAccounts(n), n.Chain.GetFrontierAccountStore); err != nil {
+				r.Fail("conservation-pool", clauseOf(err), "%s pool view on node %s: %v", stage, n.Name, err)
+			}
+			r.Probe("pool-state-checked")
+		}
+	}
+	f.Common(4+t.Choose(20), true)
+	check("common prefix")
+	f.Split(2+t.Choose(30), true, true)
+	check("partitioned")
+	w.Net.Heal()
+	win, lose, ok := f.Longer()
+	if ok && lose.Height()-f.ForkHeight <= 30 {
+		for _, n := range w.Nodes {
+			if n != win {
+				w.Net.SyncFrom(win, n)
+			}
+		}
+		r.Fault("reorg-depth-" + bucket(int(lose.Height()-f.ForkHeight)))
+		check("after reorganisation")
+	}
+	if t.Bool() {
+		for _, n := range w.Nodes {
+			if t.Bool() {
+				r.Fault("restart")
+				if err := n.Restart(false); err != nil {
+					r.Fail("restart", "open", "%v", err)
+				}
+			}
+		}
+	}
+	w.Net.Gossip = true
+	for i := 0; i < 3+t.Choose(10); i++ {
+		t.Span(func() {
+			if win.Up {
+				wl.G.RefreshTokens(win)
+				wl.Ops(win)
+			}
+			w.Net.Flush()
+			w.StepSlot()
+			w.Net.Flush()
+		})
+	}
+	check("after continuing")
+	acc := 0
+	for _, v := range wl.G.Accepted {
+		acc += v
+	}
+	r.Probes["accepted-ops"] += acc
+	r.NonTrivial = acc >= 5 && win.Height() >= 10
+	r.Finger = win.Frontier().Hash.String()
+	r.Sample["scenario"] = "partition-reorg"
+	r.Sample["heights"] = []uint64{f.A.Height(), f.B.Height()}
+}
+
 func runC01(r *simrt.Run) {
 	t := r.T
+	if t.Choose(4) == 3 {
+		runC01Fork(r)
+		return
+	}
 	mode := nomsim.SporkMode(t.Choose(3))
 	w := nomsim.NewWorld(r, nomsim.MockGenesis(mode))
 	w.EnforceReceiverRule(0)
